@@ -33,7 +33,7 @@ SHARDS = {"quick": 4, "thorough": 16}
 CAP = 160
 COST = 3e6    # bound on Nv^2 x (GF stars or omega1 classes): the library cleans these arrays element by element in Python
 VTOL = 1e-8
-EXCLUDE_C2AXIS = True   # stars whose stabiliser has a two-fold axis along dx and no mirror: spurious, non-equivariant vector star
+EXCLUDE_C2AXIS = False   # stars whose stabiliser has a two-fold axis along dx and no mirror: spurious, non-equivariant vector star
 
 
 @st.composite
